@@ -112,6 +112,14 @@ def dyadic_interval(rng, n=None, exact=False):
     return a, a + Fraction(rng.randrange(1, 400), rng.choice([1, 2, 8, 32]))
 
 
+def pick(rng, n, thorough):
+    """indices of the nodes whose kernel evaluation is replayed in Coq (exact rationals with ~53n-bit numerators:
+    all nodes for n <= 10, three per rule above that in the quick tier; the moment oracle always uses all nodes)"""
+    if thorough or n <= 10:
+        return list(range(n))
+    return sorted({0, n - 1, rng.randrange(n), n // 2})[:4]
+
+
 def rule_term(x, w):
     return tup(qlist(x), qlist(w))
 
@@ -197,7 +205,7 @@ def run(ctx):
         ctx.mismatch("C08.Model.make_multidim (gridmake / reversed ckron) vs quad._make_multidim_func", meta[i])
 
     # ================================================================ Gauss-Legendre: kernel, affine map, qnwunif, tensor
-    kcases, kmeta, acases, ameta, tcases, tmeta, ucases, umeta = [], [], [], [], [], [], [], []
+    kcases, kmeta, acases, ameta, tcases, tmeta, ucases, umeta, rcases, rmeta = [], [], [], [], [], [], [], [], [], []
     std = {}
     for n in range(1, 31):
         x, w = Q.qnwlege(n, -1.0, 1.0)
@@ -208,8 +216,9 @@ def run(ctx):
         ctx.count("qnwlege:std")
         for kind, det in check_rule_1d(x, w, -1, 1, mom_lebesgue(Fraction(-1), Fraction(1), 2 * n - 1), Fraction(1, 10**10), True):
             fail("lege_" + kind, "qnwlege: %s" % det, inp, [[float(v) for v in x], [float(v) for v in w]])
-        kcases.append(tup(natlit(n), qlist(x), qlist(w)))
-        kmeta.append(inp)
+        for i in pick(rng, n, thorough):
+            kcases.append(tup(natlit(n), qlit(x[i]), qlit(w[i])))
+            kmeta.append(dict(inp, node=i))
         m = (n + 1) // 2
         zs = [-x[i] for i in range(m)]
         if n % 2:
@@ -223,8 +232,11 @@ def run(ctx):
             ctx.count("qnwlege:affine")
             for kind, det in check_rule_1d(xa, wa, a, b, mom_lebesgue(a, b, 2 * n - 1), Fraction(1, 10**10), True):
                 fail("lege_" + kind, "qnwlege: %s" % det, inp, [[float(v) for v in xa], [float(v) for v in wa]])
-            acases.append(tup(natlit(n), qlit(a), qlit(b), qlist(zs), qlist(xa), qlist(wa)))
+            acases.append(tup(qlit(a), qlit(b), rule_term(x, w), qlist(xa), qlist(wa)))
             ameta.append(inp)
+            if n <= 8:
+                rcases.append(tup(natlit(n), qlit(a), qlit(b), qlist(zs), qlist(xa), qlist(wa)))
+                rmeta.append(inp)
             xu, wu = Q.qnwunif(n, float(a), float(b))
             xu, wu = fl(xu), fl(wu)
             inp = {"call": "qnwunif", "n": n, "a": a, "b": b}
@@ -233,14 +245,17 @@ def run(ctx):
                 fail("unif_" + kind, "qnwunif: %s" % det, inp, [[float(v) for v in xu], [float(v) for v in wu]])
             ucases.append(tup(qlist(wa), qlist([a]), qlist([b]), qlist(wu)))
             umeta.append(inp)
-    ok = ("fun c => let '(n, xs, ws) := c in forallb (fun x => root_ok %s (lege_eval n x)) xs && "
-          "Qs_relclose %s (map (fun x => lege_weight 1 x (snd (lege_eval n x))) xs) ws" % (T13, T12))
-    for i in ctx.coq_check("lege_kernel", IMPORTS, "nat * list Q * list Q", ok, kcases, chunk=4):
+    ok = "fun c => let '(n, x, w) := c in node_ok %s %s (lege_node n 1 x) w" % (T13, T12)
+    for i in ctx.coq_check("lege_kernel", IMPORTS, "nat * Q * Q", ok, kcases, chunk=12):
         ctx.mismatch("C08.Model.lege_eval/lege_weight (Legendre recurrence and weight formula) vs quad._qnwlege1 output", kmeta[i])
+    ok = ("fun c => let '(a, b, r, xs, ws) := c in let '(mx, mw) := affine_rule a b r in "
+          "Qs_close %s mx xs && Qs_relclose %s mw ws" % (T12, T12))
+    for i in ctx.coq_check("lege_affine", IMPORTS, "Q * Q * (list Q * list Q) * list Q * list Q", ok, acases, chunk=10):
+        ctx.mismatch("C08.Model.affine_rule (xm + xl t, xl w) vs quad._qnwlege1 on [a,b]", ameta[i])
     ok = ("fun c => let '(n, a, b, zs, xs, ws) := c in let '(mx, mw) := qnwlege1_from_roots n a b zs in "
           "Qs_close %s mx xs && Qs_relclose %s mw ws" % (T12, T12))
-    for i in ctx.coq_check("lege_affine", IMPORTS, "nat * Q * Q * list Q * list Q * list Q", ok, acases, chunk=6):
-        ctx.mismatch("C08.Model.qnwlege1_from_roots (affine map of roots, weights) vs quad._qnwlege1", ameta[i])
+    for i in ctx.coq_check("lege_from_roots", IMPORTS, "nat * Q * Q * list Q * list Q * list Q", ok, rcases, chunk=4):
+        ctx.mismatch("C08.Model.qnwlege1_from_roots (mirrored placement of roots, weights) vs quad._qnwlege1", rmeta[i])
     # multi-dimensional Legendre / uniform
     lshapes = [(1, 1), (1, 2), (2, 1), (2, 2), (3, 3), (30, 2), (2, 30), (1, 30), (5, 7), (2, 2, 2), (1, 2, 3), (3, 1, 2), (4, 4, 4), (30, 3, 4), (2, 3, 30)]
     for _ in range(10 * reps):
@@ -299,8 +314,9 @@ def run(ctx):
         ctx.count("qnwnorm:std")
         for kind, det in check_rule_1d(x, w, None, None, mom_normal(0, 1, 2 * n - 1), Fraction(1, 10**10)):
             fail("norm_" + kind, "qnwnorm: %s" % det, inp, [[float(v) for v in x], [float(v) for v in w]])
-        hcases.append(tup(natlit(n), qlist(x), qlist(w)))
-        hmeta.append(inp)
+        for i in pick(rng, n, thorough):
+            hcases.append(tup(natlit(n), qlit(x[i]), qlit(w[i])))
+            hmeta.append(dict(inp, node=i))
         for rep in range(reps):
             s = Fraction(rng.randrange(1, 40), rng.choice([1, 2, 4, 8]))
             mu = Fraction(rng.randrange(-80, 80), 8)
@@ -318,9 +334,8 @@ def run(ctx):
             ctx.case(("qnwlogn", n, mu, s), nontrivial=n >= 2)
             if not (np.array_equal(np.atleast_1d(xl), np.exp(np.atleast_1d(xn))) and np.array_equal(wl, wn)):
                 fail("logn_image", "qnwlogn is not the exponential image of qnwnorm", {"call": "qnwlogn", "n": n, "mu": mu / 16, "sig2": s * s / 64})
-    ok = ("fun c => let '(n, xs, ws) := c in forallb (fun x => root_ok %s (herm_eval n x)) xs && "
-          "Qs_relclose %s (map (herm_weight n) xs) ws" % (T13, T12))
-    for i in ctx.coq_check("hermite_kernel", IMPORTS, "nat * list Q * list Q", ok, hcases, chunk=4):
+    ok = "fun c => let '(n, x, w) := c in node_ok %s %s (herm_node n x) w" % (T13, T12)
+    for i in ctx.coq_check("hermite_kernel", IMPORTS, "nat * Q * Q", ok, hcases, chunk=12):
         ctx.mismatch("C08.Model.herm_eval/herm_weight (Hermite recurrence, weight formula) vs quad._qnwnorm1 output", hmeta[i])
     ok = "fun c => let '(xs, s, mu, ys) := c in Qs_close %s (norm_map1 xs s mu) ys" % T12
     for i in ctx.coq_check("qnwnorm_map_1d", IMPORTS, "list Q * Q * Q * list Q", ok, ncases, chunk=30):
@@ -401,8 +416,9 @@ def run(ctx):
             ctx.count("qnwbeta")
             for kind, det in check_rule_1d(x, w, 0, 1, mom_beta(a, b, 2 * n - 1), Fraction(1, 10**6), True):
                 fail("beta_" + kind, "qnwbeta: %s" % det, inp, [[float(v) for v in x], [float(v) for v in w]])
-            bcases.append(tup(natlit(n), qlit(a - 1), qlit(b - 1), qlist([1 - 2 * v for v in x]), qlist(w)))
-            bmeta.append(inp)
+            for i in pick(rng, n, thorough)[:3 if n > 20 else 4]:
+                bcases.append(tup(natlit(n), qlit(a - 1), qlit(b - 1), qlit(1 - 2 * x[i]), qlit(w[i])))
+                bmeta.append(dict(inp, node=i))
             a = Fraction(rng.randrange(13, 512), 64)
             sc = Fraction(2) ** rng.randrange(-3, 4)
             inp = {"call": "qnwgamma", "n": n, "a": a, "b": sc}
@@ -416,15 +432,14 @@ def run(ctx):
             ctx.count("qnwgamma")
             for kind, det in check_rule_1d(x, w, 0, None, mom_gamma(a, sc, 2 * n - 1), Fraction(1, 10**6), True):
                 fail("gamma_" + kind, "qnwgamma: %s" % det, inp, [[float(v) for v in x], [float(v) for v in w]])
-            gcases.append(tup(natlit(n), qlit(a - 1), qlist([v / sc for v in x]), qlist(w)))
-            gmeta.append(inp)
-    ok = ("fun c => let '(n, a, b, zs, ws) := c in forallb (fun z => root_ok %s (jac_eval n a b z)) zs && "
-          "Qs_relclose %s (map (jac_weight n a b) zs) ws" % (T13, T6))
-    for i in ctx.coq_check("jacobi_kernel", IMPORTS, "nat * Q * Q * list Q * list Q", ok, bcases, chunk=4):
+            for i in pick(rng, n, thorough):
+                gcases.append(tup(natlit(n), qlit(a - 1), qlit(x[i] / sc), qlit(w[i])))
+                gmeta.append(dict(inp, node=i))
+    ok = "fun c => let '(n, a, b, z, w) := c in node_ok %s %s (jac_node n a b z) w" % (T13, T6)
+    for i in ctx.coq_check("jacobi_kernel", IMPORTS, "nat * Q * Q * Q * Q", ok, bcases, chunk=10):
         ctx.mismatch("C08.Model.jac_eval/jac_weight (Jacobi recurrence, weight formula, gamma factors) vs quad._qnwbeta1 output", bmeta[i])
-    ok = ("fun c => let '(n, a, zs, ws) := c in forallb (fun z => root_ok %s (lag_eval n a z)) zs && "
-          "Qs_relclose %s (map (lag_weight n a) zs) ws" % (T12, T9))
-    for i in ctx.coq_check("laguerre_kernel", IMPORTS, "nat * Q * list Q * list Q", ok, gcases, chunk=4):
+    ok = "fun c => let '(n, a, z, w) := c in node_ok %s %s (lag_node n a z) w" % (T12, T9)
+    for i in ctx.coq_check("laguerre_kernel", IMPORTS, "nat * Q * Q * Q", ok, gcases, chunk=10):
         ctx.mismatch("C08.Model.lag_eval/lag_weight (Laguerre recurrence, weight formula, gamma factor) vs quad._qnwgamma1 output", gmeta[i])
     # multi-dimensional beta / gamma: tensor order
     for shp in [(2, 3), (3, 2), (1, 4), (5, 5), (2, 2, 2), (3, 2, 4), (30, 2), (2, 3, 9)]:
@@ -483,7 +498,7 @@ def run(ctx):
     for _ in range(60 * reps):
         d = rng.choice([1, 1, 2, 3])
         kind = rng.choice(kinds)
-        lo = 3 if kind in ("trap", "simp") else 1
+        lo = 3 if kind in ("trap", "simp") else 2
         n = [rng.randrange(lo, 13 if d == 1 else 7) for _ in range(d)]
         ab = [(Fraction(rng.randrange(-16, 16), 8), None) for _ in range(d)]
         ab = [(p[0], p[0] + Fraction(rng.randrange(1, 24), 8)) for p in ab]
@@ -502,6 +517,7 @@ def run(ctx):
             out = Q.quadrect(f, *args, kind=kind, random_state=seed)
             fn = {"lege": Q.qnwlege, "cheb": Q.qnwcheb, "trap": Q.qnwtrap, "simp": Q.qnwsimp}.get(kind)
             nodes, weights = fn(*args) if fn else Q.qnwequi(*args, kind, random_state=seed)
+        out = float(np.asarray(out).reshape(-1)[0])
         inp = {"call": "quadrect", "kind": kind, "n": n, "a": a, "b": b, "exponents": es, "const": cs, "seed": seed}
         ctx.case(("quadrect", kind, tuple(n), tuple(a), tuple(b), tuple(es), cs), nontrivial=True,
                  sample={"call": "quadrect", "kind": kind, "n": n, "a": a, "b": b, "out": float(out)})
